@@ -111,6 +111,11 @@ Definition set_term (e : entry) (err : errc) : entry :=
 Definition set_offline (e : entry) : entry :=      (* reconciledLoader.SetRemoteOnline(false) *)
   mk_entry (e_peer e) (e_state e) (e_term e) (e_ctx_done e) (e_last e)
            (option_map (fun l => mk_loader false (l_queue l)) (e_loader e)).
+(* reconciledLoader.SetRemoteOnline(true): a loader that was closed drops what is still queued
+   (remoteQueue.clear(); the model carries no last-consumed item, nothing is consumed in it) before it
+   opens; an open loader is left as it is *)
+Definition loader_online (l : loader) : loader :=
+  if l_open l then l else mk_loader true [].
 Definition set_ctx_done (e : entry) : entry :=
   mk_entry (e_peer e) (e_state e) (e_term e) true (e_last e) (e_loader e).
 Definition has_loader (e : entry) : bool := match e_loader e with Some _ => true | None => false end.
@@ -246,7 +251,7 @@ Section WithHooks.
         match e_state e with
         | Running =>
           mk_lres (Some (mk_entry (e_peer e) (e_state e) (e_term e) (e_ctx_done e) (e_last e)
-                                  (option_map (fun l => mk_loader true (l_queue l)) (e_loader e))))
+                                  (option_map loader_online (e_loader e))))
                   [EvSend (e_peer e) id KNew] true false
         | _ => mk_lres oe [] true false
         end
